@@ -73,14 +73,19 @@ class CCodeMapper(SimplifyingSortingStringifyMapper):
 
     def __init__(self, reverse=True,
             cse_prefix="_cse", complex_constant_base_type="double",
-            cse_name_list=None):
+            cse_name_list=None, cse_to_name=None):
         if cse_name_list is None:
             cse_name_list = []
         super().__init__(reverse)
         self.cse_prefix = cse_prefix
 
-        self.cse_to_name = {cse: name for name, cse in cse_name_list}
-        self.cse_names = {cse for name, cse in cse_name_list}
+        # cse_name_list holds (name, code string) pairs; entries given as
+        # (name, expression) declare already-assigned subexpressions.
+        self.cse_to_name = dict(cse_to_name) if cse_to_name is not None else {}
+        for name, cse in cse_name_list:
+            if not isinstance(cse, str):
+                self.cse_to_name[cse] = name
+        self.cse_names = {name for name, cse in cse_name_list}
         self.cse_name_list = cse_name_list[:]
 
         self.complex_constant_base_type = complex_constant_base_type
@@ -90,7 +95,7 @@ class CCodeMapper(SimplifyingSortingStringifyMapper):
             cse_name_list = self.cse_name_list
         return CCodeMapper(self.reverse,
                 self.cse_prefix, self.complex_constant_base_type,
-                cse_name_list)
+                cse_name_list, cse_to_name=self.cse_to_name)
 
     def copy_with_mapped_cses(self, cses_and_values):
         return self.copy(self.cse_name_list + cses_and_values)
